@@ -629,7 +629,7 @@ def run_perd(spec):
 def run_join(spec):
     spec = _norm(spec)
     from pyg_base import dictable
-    from pyg_base._perdictable import join
+    from pyg_base import join
     env, inputs, built, defaults = _build(spec)
     names = [i['name'] for i in spec['inputs']]
     dflt = None if spec['defaults_form'] == 'none' else dict(defaults)
